@@ -701,7 +701,7 @@ outputs.  The transaction version and the gathered outputs only reach the commit
 `Tx.kind`), `output_num` only the two asserts of `on_transaction_output` / `on_transaction_end`.
 `Set<OutPoint>::contains` is `List.contains`, `Version(i32)` the identity, `LockTime = TxOut = Unit`. -/
 
-abbrev GPL := Gen.FnMonitorC14.PushListener Nat Nat GSet Int Unit Unit
+abbrev GPL := Gen.FnMonitorC14.PushListener Nat Nat GSet Int Unit Unit Unit
 
 def toGenTxIn (i : OutPoint) : Gen.FnMonitorC14.TxIn Nat := { previous_output := toGenOp i }
 
@@ -729,7 +729,7 @@ theorem C14_fn_decode_state_new (s : Monitor.State) (bh : Nat) :
 
 /-- a listener that has seen the block start is ready; one that never saw a block is not (and must hold no hash) -/
 theorem C14_fn_is_not_ready (ds : GDS) (sb : Bool) :
-    Gen.FnMonitorC14.PushListener.is_not_ready_for_push ({ decode_state := ds, saw_block := sb } : GPL)
+    Gen.FnMonitorC14.PushListener.is_not_ready_for_push ({ commitment_point_provider := (), decode_state := ds, saw_block := sb } : GPL)
       = if sb then (if ds.block_hash.isSome then .ok false else .error .panic)
         else (if ds.block_hash.isNone then .ok true else .error .panic) := by
   unfold Gen.FnMonitorC14.PushListener.is_not_ready_for_push
@@ -738,8 +738,8 @@ theorem C14_fn_is_not_ready (ds : GDS) (sb : Bool) :
 /-- `on_block_start`: at most once per decode state ("saw more than one on_block_start"), sets the hash and `saw_block` -/
 theorem C14_fn_on_block_start (ds : GDS) (sb : Bool) (bh : Nat) :
     Gen.FnMonitorC14.PushListener.on_block_start (ext_BlockHeader_block_hash := fun (h : Nat) => h)
-        ({ decode_state := ds, saw_block := sb } : GPL) bh
-      = if ds.block_hash.isNone then .ok { decode_state := { ds with block_hash := some bh }, saw_block := true }
+        ({ commitment_point_provider := (), decode_state := ds, saw_block := sb } : GPL) bh
+      = if ds.block_hash.isNone then .ok { commitment_point_provider := (), decode_state := { ds with block_hash := some bh }, saw_block := true }
         else .error .panic := by
   unfold Gen.FnMonitorC14.PushListener.on_block_start
   cases h : ds.block_hash <;> simp [Rs.assert, Rs.panic]
@@ -747,8 +747,8 @@ theorem C14_fn_on_block_start (ds : GDS) (sb : Bool) (bh : Nat) :
 /-- `on_transaction_start` resets the per-transaction scratch (`Monitor.onTx`'s `d0`) and keeps the per-block part -/
 theorem C14_fn_on_transaction_start (bh : Nat) (ver ver' : Int) (d : Scratch) :
     Gen.FnMonitorC14.PushListener.on_transaction_start
-        ({ decode_state := { toGenScratch bh ver d with output_num := 7 }, saw_block := true } : GPL) ver'
-      = .ok { decode_state := toGenScratch bh ver'
+        ({ commitment_point_provider := (), decode_state := { toGenScratch bh ver d with output_num := 7 }, saw_block := true } : GPL) ver'
+      = .ok { commitment_point_provider := (), decode_state := toGenScratch bh ver'
                 { t := d.t, changes := d.changes, inputNum := 0, closingIn := none, spentHtlc := [] },
               saw_block := true } := by
   unfold Gen.FnMonitorC14.PushListener.on_transaction_start
@@ -770,7 +770,8 @@ def gOnInput (l : GPL) (i : OutPoint) : Rs.M GPL :=
   Gen.FnMonitorC14.PushListener.on_transaction_input (ext_Set_contains := xContains) (ext_version_of := fun v => v)
     (ext_locktime_zero := ()) l (toGenTxIn i)
 
-def plOf (bh : Nat) (ver : Int) (d : Scratch) : GPL := { decode_state := toGenScratch bh ver d, saw_block := true }
+def plOf (bh : Nat) (ver : Int) (d : Scratch) : GPL :=
+  { commitment_point_provider := (), decode_state := toGenScratch bh ver d, saw_block := true }
 
 @[simp] theorem sc_state (bh : Nat) (ver : Int) (d : Scratch) : (toGenScratch bh ver d).state = toGen d.t := rfl
 @[simp] theorem sc_hash (bh : Nat) (ver : Int) (d : Scratch) : (toGenScratch bh ver d).block_hash = some bh := rfl
@@ -979,13 +980,14 @@ theorem C14_fn_on_transaction_input (bh : Nat) (ver : Int) (d : Scratch) (i : Ou
     otherwise only the counter moves. -/
 theorem C14_fn_on_transaction_output (ds : GDS) (bh : Nat) (hb : ds.block_hash = some bh)
     (hk : ds.output_num + 1 ≤ Rs.U32_MAX) :
-    Gen.FnMonitorC14.PushListener.on_transaction_output ({ decode_state := ds, saw_block := true } : GPL) ()
+    Gen.FnMonitorC14.PushListener.on_transaction_output ({ commitment_point_provider := (), decode_state := ds, saw_block := true } : GPL) ()
       = match ds.closing_tx with
-        | none => .ok { decode_state := { ds with output_num := ds.output_num + 1 }, saw_block := true }
+        | none => .ok { commitment_point_provider := (), decode_state := { ds with output_num := ds.output_num + 1 }, saw_block := true }
         | some tx =>
           if ds.output_num < Monitor.MAX_COMMITMENT_OUTPUTS then
-            .ok { decode_state := { ds with closing_tx := some { tx with output := tx.output ++ [()] },
-                                            output_num := ds.output_num + 1 }, saw_block := true }
+            .ok { commitment_point_provider := (), saw_block := true,
+                  decode_state :=
+                    { ds with closing_tx := some { tx with output := tx.output ++ [()] }, output_num := ds.output_num + 1 } }
           else .error .panic := by
   unfold Gen.FnMonitorC14.PushListener.on_transaction_output
   have hu : Rs.uadd Rs.U32_MAX ds.output_num 1 = .ok (ds.output_num + 1) := by unfold Rs.uadd; rw [if_pos hk]; rfl
@@ -997,5 +999,73 @@ theorem C14_fn_on_transaction_output (ds : GDS) (bh : Nat) (hb : ds.block_hash =
     by_cases hlt : ds.output_num < 600
     · simp [hu, hlt, hc, hb, Rs.unwrap, Rs.assert]
     · simp [hlt, hc, hb, Rs.unwrap, Rs.assert, Rs.panic]
+
+
+/-! ### `PushListener::on_transaction_end` (generated, not yet tied as a whole)
+
+The body is generated (`Gen.FnMonitorC14.PushListener.on_transaction_end`, commitment decoder and point provider as
+externals).  Proved here: its final loop.  The funding-confirmation and close-classification steps are the same
+`add_change` calls as in `on_transaction_input` (`add_change_nf`); the equality with the tail of `Monitor.onTx` is open. -/
+
+/-- the decode state when `on_transaction_end` runs / when it is done (per-transaction scratch consumed) -/
+def endDs (bh : Nat) (ver : Int) (n o : Nat) (ctx : Option GTx) (sp : List (Nat × Nat)) (cs : List Change)
+    (t : Monitor.State) : GDS :=
+  { changes := cs.map toGenChange, version := ver, input_num := n, output_num := o, closing_tx := ctx,
+    spent_htlc_outputs := sp, block_hash := some bh, state := toGen t }
+
+def endPl (bh : Nat) (ver : Int) (n o : Nat) (d : Scratch) : GPL :=
+  { commitment_point_provider := (), decode_state := endDs bh ver n o none [] d.changes d.t, saw_block := true }
+
+/-- the `for change in htlc_changes { decode_state.add_change(change) }` loop = `Monitor.addChanges` -/
+theorem fold_add_changes (bh : Nat) (ver : Int) (n o : Nat) : ∀ (cl : List Change) (d : Scratch),
+    List.foldlM (fun (self : GPL) change => do
+        let s ← Gen.FnMonitorC14.BlockDecodeState.add_change self.decode_state change
+        let self := { self with decode_state := s }
+        pure self) (endPl bh ver n o d) (cl.map toGenChange)
+      = ofOpt (endPl bh ver n o) (addChanges d cl) := by
+  intro cl
+  induction cl with
+  | nil => intro d; rfl
+  | cons c cl ih =>
+    intro d
+    simp only [List.map_cons, List.foldlM_cons, addChanges, endPl, endDs, add_change_nf, Scratch.addChange]
+    cases hap : applyForward d.t c with
+    | none => rfl
+    | some r =>
+      obtain ⟨t', a, rr⟩ := r
+      simp only [Rs.bind_ok, Rs.pure_eq, Option.map_some]
+      exact ih { d with t := t', changes := d.changes ++ [c] }
+
+
+def gOnEnd (l : GPL) (txid : Nat) : Rs.M GPL :=
+  Gen.FnMonitorC14.PushListener.on_transaction_end (ChannelTransactionParameters := Unit) (PublicKey := Unit)
+    (ext_CommitmentPointProvider_get_transaction_parameters := fun _ => ())
+    (ext_decode_commitment_number := fun _ _ => none)
+    (ext_CommitmentPointProvider_get_holder_commitment_point := fun _ _ => ())
+    (ext_CommitmentPointProvider_get_counterparty_commitment_point := fun _ _ => none)
+    (ext_decode_commitment_tx := fun _ _ _ _ => (none, []))
+    (ext_CommitmentPointProvider_get_spendable_htlc_indices := fun _ _ _ => none) l () txid
+
+/-- **`on_transaction_end`, partial**: for a transaction that is neither a funding transaction of the channel nor spends
+    the funding outpoint, the function is the HTLC loop — `Monitor.addChanges` over the spent HTLC outputs collected by
+    `on_transaction_input`, each becoming `HTLCOutputSpent(vout, (txid, input index))` — and the per-transaction scratch
+    is consumed.  (Full statement, open: equality with the whole tail of `Monitor.onTx`, including `FundingConfirmed`
+    and the unilateral / mutual classification through the commitment decoder.) -/
+theorem C14_fn_on_transaction_end_partial (bh : Nat) (ver : Int) (o : Nat) (d : Scratch) (txid : Nat)
+    (hf : position txid d.t.fundingTxids = none) (hc : d.closingIn = none) :
+    gOnEnd { commitment_point_provider := (), saw_block := true,
+             decode_state := endDs bh ver d.inputNum o none d.spentHtlc d.changes d.t } txid
+      = ofOpt (endPl bh ver d.inputNum o)
+          (addChanges d (d.spentHtlc.map fun (v, idx) => Change.htlcSpent v (txid, idx))) := by
+  unfold gOnEnd Gen.FnMonitorC14.PushListener.on_transaction_end
+  have hpos : (toGen d.t).funding_txids.findIdx? (fun i => i == txid) = none := by
+    rw [← position_eq_findIdx]; exact hf
+  have hmap : (d.spentHtlc.map fun (p : Nat × Nat) =>
+        Gen.FnMonitorC14.StateChange.HTLCOutputSpent p.1 ({ txid := txid, vout := p.2 } : GOp))
+      = (d.spentHtlc.map fun (v, idx) => Change.htlcSpent v (txid, idx)).map toGenChange := by
+    rw [List.map_map]; rfl
+  simp only [C14_fn_is_not_ready, endDs, Option.isSome_some, if_true, Rs.bind_ok, Bool.false_eq_true, if_false, hpos,
+    Rs.pure_eq, hmap]
+  exact fold_add_changes bh ver d.inputNum o _ d
 
 end VlsModel.Props.C14Fn
